@@ -744,7 +744,7 @@ def script_coq(case):
 
 def run_scripts(ctx, cases):
     """implementation, model and Spec on script cases; replies are compared as the sequence of replies delivered"""
-    impl = ctx.harness('server', [script_line(c) for c in cases], shards=16)
+    impl = ctx.harness('server', [script_line(c) for c in cases], shards=16, timeout=300)
     norm = []
     for i in impl:
         rep, log, end = split3(i)
